@@ -1,1 +1,222 @@
-fn main() {}
+//! Second engine for C13, no stubs at all: the same kind of scenario with plain std threads, meant
+//! to run under `cargo +nightly miri run` with `-Zmiri-many-seeds=a..b -Zmiri-preemption-rate=p`.
+//! Miri is a deterministic interpreter with a seeded scheduler (one seed = one exactly repeatable
+//! execution) that preempts at basic-block granularity, executes the real SyncCache condvar path, the
+//! real OnceCell and Mutex and the unsafe down-casts, and reports data races, undefined behaviour
+//! and deadlocks itself. Acyclic documents only (the known finding K1 is a deadlock on cyclic ones).
+//!
+//! usage: miri_c13 <scenario> [variant]      scenario in {shared_same_key, objstm_members, lazy, image_stream}
+//! Also runs natively (cargo run) as a plain stress test.
+
+#[path = "../docgen.rs"]
+#[allow(dead_code)]
+mod docgen;
+#[path = "../rng.rs"]
+#[allow(dead_code)]
+mod rng;
+
+use docgen::*;
+use pdf::file::FileOptions;
+use pdf::object::*;
+use pdf::primitive::Primitive;
+
+fn rect(a: i64, b: i64, c: i64, d: i64) -> Val {
+    Val::ints(&[a, b, c, d])
+}
+
+/// catalog 1, pages 2, page 3 (annots 5, font 6, image 7, contents 4), page 8
+fn document(compress: bool) -> Vec<u8> {
+    let mut b = Builder::new();
+    let catalog = b.reserve();
+    let pages = b.reserve();
+    let page = b.reserve();
+    let contents = b.add_stream(vec![], b"BT /F1 12 Tf (x) Tj ET".to_vec());
+    let annot = b.add(Val::dict(vec![("Type", Val::name("Annot")), ("Subtype", Val::name("Text")), ("Rect", rect(0, 0, 5, 5)), ("P", Val::r(page))]));
+    let font = b.add(Val::dict(vec![
+        ("Type", Val::name("Font")),
+        ("Subtype", Val::name("Type1")),
+        ("BaseFont", Val::name("Helvetica")),
+        ("FirstChar", Val::Int(65)),
+        ("LastChar", Val::Int(66)),
+        ("Widths", Val::ints(&[500, 600])),
+    ]));
+    let image = b.add_stream(
+        vec![
+            ("Type".into(), Val::name("XObject")),
+            ("Subtype".into(), Val::name("Image")),
+            ("Width".into(), Val::Int(2)),
+            ("Height".into(), Val::Int(1)),
+            ("ColorSpace".into(), Val::name("DeviceGray")),
+            ("BitsPerComponent".into(), Val::Int(8)),
+            ("Filter".into(), Val::Arr(vec![Val::name("ASCIIHexDecode"), Val::name("FlateDecode")])),
+        ],
+        ascii_hex(&zlib_stored(&[9, 8])),
+    );
+    let page2 = b.add(Val::dict(vec![("Type", Val::name("Page")), ("Parent", Val::r(pages))]));
+    b.put(
+        page,
+        Val::dict(vec![
+            ("Type", Val::name("Page")),
+            ("Parent", Val::r(pages)),
+            ("Contents", Val::r(contents)),
+            ("Annots", Val::Arr(vec![Val::r(annot)])),
+            ("Resources", Val::dict(vec![("Font", Val::dict(vec![("F1", Val::r(font))])), ("XObject", Val::dict(vec![("Im", Val::r(image))]))])),
+        ]),
+    );
+    b.put(pages, Val::dict(vec![("Type", Val::name("Pages")), ("Kids", Val::Arr(vec![Val::r(page), Val::r(page2)])), ("Count", Val::Int(2)), ("MediaBox", rect(0, 0, 10, 10)), ("Resources", Val::dict(vec![]))]));
+    b.put(catalog, Val::dict(vec![("Type", Val::name("Catalog")), ("Pages", Val::r(pages))]));
+    let mut layout = Layout::classic();
+    if compress {
+        layout.xref_stream = true;
+        layout.compress = true;
+    }
+    layout.keep_direct = vec![catalog];
+    // fixed PRNG value: under Miri nothing may depend on the environment
+    let mut rng = rng::Rng::new(3);
+    let spec = b.finish(catalog, &layout, &mut rng);
+    write_doc(&spec).bytes
+}
+
+fn r<T>(id: u64) -> Ref<T> {
+    Ref::new(PlainRef { id, gen: 0 })
+}
+
+fn node_text(res: &impl Resolve, id: u64) -> String {
+    match res.get::<PagesNode>(r(id)) {
+        Ok(n) => match *n {
+            PagesNode::Tree(ref t) => format!("tree count={} kids={}", t.count, t.kids.len()),
+            PagesNode::Leaf(ref p) => format!("leaf media={:?} rotate={} contents={}", p.media_box().ok(), p.rotate, p.contents.is_some()),
+        },
+        Err(e) => format!("Err({})", e),
+    }
+}
+fn prim_text(res: &impl Resolve, id: u64) -> String {
+    match res.resolve(PlainRef { id, gen: 0 }) {
+        Ok(Primitive::Stream(s)) => format!("stream {:?}", s.info),
+        Ok(p) => format!("{}", p),
+        Err(e) => format!("Err({})", e),
+    }
+}
+
+fn main() {
+    let args: Vec<String> = std::env::args().collect();
+    let scenario = args.get(1).map(|s| s.as_str()).unwrap_or("shared_same_key");
+    let variant: u64 = args.get(2).and_then(|s| s.parse().ok()).unwrap_or(0);
+    let compress = scenario == "objstm_members";
+    let bytes = document(compress);
+    // expected answers: sequential, uncached
+    let reference = FileOptions::uncached().load(bytes.clone()).expect("load uncached");
+    let file = FileOptions::cached().load(bytes).expect("load cached");
+    match scenario {
+        "shared_same_key" => {
+            // one resolver shared by both threads; both load the same keys (and a parent/child pair)
+            let ref_res = reference.resolver();
+            let expect: Vec<String> = [3u64, 2, 3, 8].iter().map(|&id| node_text(&ref_res, id)).collect();
+            let res = file.resolver();
+            std::thread::scope(|s| {
+                let hs: Vec<_> = (0..2)
+                    .map(|t| {
+                        let res = &res;
+                        let expect = &expect;
+                        s.spawn(move || {
+                            let order: [usize; 4] = if (t + variant) % 2 == 0 { [0, 1, 2, 3] } else { [3, 2, 1, 0] };
+                            for &k in &order {
+                                let id = [3u64, 2, 3, 8][k];
+                                assert_eq!(node_text(res, id), expect[k], "thread {} get({})", t, id);
+                            }
+                        })
+                    })
+                    .collect();
+                for h in hs {
+                    h.join().unwrap();
+                }
+            });
+        }
+        "objstm_members" => {
+            // one resolver per thread; different members of one object stream (raw and typed)
+            let ref_res = reference.resolver();
+            let ids = [2u64, 3, 5, 6, 8];
+            let expect: Vec<String> = ids.iter().map(|&id| prim_text(&ref_res, id)).collect();
+            std::thread::scope(|s| {
+                for t in 0..2u64 {
+                    let file = &file;
+                    let expect = &expect;
+                    s.spawn(move || {
+                        let res = file.resolver();
+                        for k in 0..ids.len() {
+                            let k = if (t + variant) % 2 == 0 { k } else { ids.len() - 1 - k };
+                            assert_eq!(prim_text(&res, ids[k]), expect[k], "thread {} resolve({})", t, ids[k]);
+                        }
+                        assert!(res.get::<PagesNode>(r(3)).is_ok());
+                    });
+                }
+            });
+        }
+        "lazy" => {
+            // both threads hold the same cached page and load its lazy annotations and font
+            let page = file.get_page(0).expect("page");
+            let rp = reference.get_page(0).expect("page");
+            let ref_res = reference.resolver();
+            let exp_annots = rp.annotations.load(&ref_res).map(|a| a.len()).map_err(|e| e.to_string());
+            let exp_font = rp.resources().ok().and_then(|r| r.fonts.values().next().map(|f| f.load(&ref_res).map(|f| format!("{:?}", f.subtype)).map_err(|e| e.to_string())));
+            std::thread::scope(|s| {
+                for _t in 0..2 {
+                    let page = page.clone();
+                    let file = &file;
+                    let (ea, ef) = (exp_annots.clone(), exp_font.clone());
+                    s.spawn(move || {
+                        let res = file.resolver();
+                        let a = page.annotations.load(&res).map(|a| a.len()).map_err(|e| e.to_string());
+                        assert_eq!(a, ea);
+                        let f = page.resources().ok().and_then(|r| r.fonts.values().next().map(|f| f.load(&res).map(|f| format!("{:?}", f.subtype)).map_err(|e| e.to_string())));
+                        assert_eq!(f, ef);
+                    });
+                }
+            });
+        }
+        "image_stream" => {
+            // stream data and image data of one image stream from two threads
+            let ref_res = reference.resolver();
+            let exp_stream = ref_res.get::<Stream<()>>(r(7)).and_then(|s| (*s).data(&ref_res)).map(|d| d.to_vec()).map_err(|e| e.to_string());
+            let exp_image = ref_res
+                .get::<XObject>(r(7))
+                .and_then(|x| match *x {
+                    XObject::Image(ref i) => i.image_data(&ref_res),
+                    _ => panic!("not an image"),
+                })
+                .map(|d| d.to_vec())
+                .map_err(|e| e.to_string());
+            std::thread::scope(|s| {
+                let file = &file;
+                let es = exp_stream.clone();
+                s.spawn(move || {
+                    let res = file.resolver();
+                    for _ in 0..2 {
+                        let got = res.get::<Stream<()>>(r(7)).and_then(|s| (*s).data(&res)).map(|d| d.to_vec()).map_err(|e| e.to_string());
+                        assert_eq!(got, es, "stream data");
+                    }
+                });
+                let ei = exp_image.clone();
+                s.spawn(move || {
+                    let res = file.resolver();
+                    for _ in 0..2 {
+                        let got = res
+                            .get::<XObject>(r(7))
+                            .and_then(|x| match *x {
+                                XObject::Image(ref i) => i.image_data(&res),
+                                _ => panic!("not an image"),
+                            })
+                            .map(|d| d.to_vec())
+                            .map_err(|e| e.to_string());
+                        assert_eq!(got, ei, "image data");
+                    }
+                });
+            });
+        }
+        other => {
+            eprintln!("unknown scenario {}", other);
+            std::process::exit(2);
+        }
+    }
+    println!("ok {} {}", scenario, variant);
+}
